@@ -2,7 +2,7 @@
    inside a blank canvas and (maxima stage) under transposition; batch = tagged
    concatenation for either map function; monitor soundness; F13 witness. *)
 From Coq Require Import ZArith NArith QArith Qabs List Bool Arith Lia Permutation.
-From TP Require Import Model.Dilation Model.COM Model.Equivariance Proofs.Dilation Proofs.COM.
+From TP Require Import Model.Dilation Model.COM Model.Equivariance Proofs.COM Proofs.Dilation.
 Import ListNotations.
 Open Scope Z_scope.
 
@@ -152,7 +152,8 @@ Qed.
 Theorem check_moved_sound : forall tolp tol d A B,
   check_moved tolp tol d A B = 0%N -> Forall2 (trow_related tolp tol d) A B.
 Proof.
-  intros. unfold check_moved in H. destruct (forallb _ A); cbn in H; [|discriminate].
+  intros. unfold check_moved in H.
+  match type of H with context [forallb ?f A] => destruct (forallb f A) end; simpl negb in H; cbv iota in H; [|discriminate].
   apply table_code_sound, H.
 Qed.
 
@@ -163,3 +164,452 @@ Proof.
   intros. unfold check_transposed in H. eexists. split; [apply table_code_sound, H|].
   apply Forall_forall. intros q Hq. apply repeat_spec in Hq. exact Hq.
 Qed.
+
+(* ============================================================ vector lemmas *)
+Lemma vadd_length : forall p d, length p = length d -> length (vadd p d) = length d.
+Proof. induction p as [|x p IH]; intros [|y d] H; cbn in *; try discriminate; auto. Qed.
+
+Lemma vsub_length : forall q d, length q = length d -> length (vsub q d) = length d.
+Proof. induction q as [|x q IH]; intros [|y d] H; cbn in *; try discriminate; auto. Qed.
+
+Lemma vadd_vsub : forall q d, length q = length d -> vadd (vsub q d) d = q.
+Proof.
+  induction q as [|x q IH]; intros [|y d] H; cbn in *; try discriminate; auto.
+  f_equal; [lia|apply IH; lia].
+Qed.
+
+Lemma vadd_inj : forall p p' d, length p = length d -> length p' = length d -> vadd p d = vadd p' d -> p = p'.
+Proof.
+  induction p as [|x p IH]; intros [|x' p'] [|y d] H1 H2 E; cbn in *; try discriminate; auto.
+  inversion E. f_equal; [lia|apply (IH p' d); [lia|lia|assumption]].
+Qed.
+
+Lemma ix_vadd : forall c d k, length c = length d -> ix (vadd c d) k = ix c k + ix d k.
+Proof.
+  unfold ix. induction c as [|x c IH]; intros [|y d] k H; cbn in *; try discriminate.
+  - destruct k; reflexivity.
+  - destruct k; [reflexivity|]. apply IH. lia.
+Qed.
+
+Lemma list_eq_ix : forall a b : list Z, length a = length b -> (forall k, (k < length a)%nat -> ix a k = ix b k) -> a = b.
+Proof.
+  unfold ix. induction a as [|x a IH]; intros [|y b] H E; cbn in *; try discriminate; auto.
+  f_equal.
+  - apply (E 0%nat). lia.
+  - apply IH; [lia|]. intros k Hk. apply (E (S k)). lia.
+Qed.
+
+Lemma NoDup_map_inj_in : forall (A B : Type) (f : A -> B) (l : list A),
+  (forall x y, In x l -> In y l -> f x = f y -> x = y) -> NoDup l -> NoDup (map f l).
+Proof.
+  induction l as [|a l IH]; intros Hinj Hn; cbn; [constructor|].
+  inversion Hn; subst. constructor.
+  - intros Hin. apply in_map_iff in Hin. destruct Hin as [x [E Hx]].
+    assert (x = a) by (apply Hinj; [right; exact Hx|left; reflexivity|exact E]). subst. contradiction.
+  - apply IH; [|assumption]. intros x y Hx Hy. apply Hinj; right; assumption.
+Qed.
+
+Lemma filter_map_comm : forall (A B : Type) (f : B -> bool) (g : A -> B) (l : list A),
+  filter f (map g l) = map g (filter (fun x => f (g x)) l).
+Proof. induction l as [|a l IH]; cbn; [reflexivity|]. destruct (f (g a)); cbn; rewrite IH; reflexivity. Qed.
+
+Lemma Forall3_length : forall (A B C : Type) (R : A -> B -> C -> Prop) a b c,
+  Forall3 R a b c -> length a = length b /\ length b = length c.
+Proof. intros. induction H; cbn; lia. Qed.
+
+Lemma in_box_vadd : forall sizes p q d,
+  length p = length d -> length q = length d -> length sizes = length d ->
+  (in_box sizes (vadd p d) (vadd q d) <-> in_box sizes p q).
+Proof.
+  unfold in_box. induction sizes as [|s sizes IH]; intros [|i p] [|j q] [|e d] H1 H2 H3; cbn in *; try discriminate.
+  - split; constructor.
+  - split; intros H; inversion H; subst; constructor; try lia; apply (IH p q d); try lia; assumption.
+Qed.
+
+Lemma in_bounds_vadd_len : forall sh p, in_bounds sh p -> length p = length sh.
+Proof. exact in_bounds_length. Qed.
+
+(* ======================================= maxima stage under translation *)
+(* every non-zero pixel lies inside the declared shape and keeps the margin from the edge *)
+Definition content_inside (mg : list Z) (im : image) : Prop :=
+  forall p, pix im p <> 0 -> in_bounds (shape im) p /\ outside_margin (shape im) mg p.
+
+Definition nzb (v : Z) : bool := negb (v =? 0).
+
+Lemma not_black_as_map : forall im,
+  not_black im = map (pix im) (filter (fun p => nzb (pix im p)) (coords (shape im))).
+Proof. intros. unfold not_black. apply filter_map_comm. Qed.
+
+Section MovedMaxima.
+  Variable percentile : list Z -> Q.
+  Hypothesis percentile_perm : forall l l', Permutation l l' -> percentile l = percentile l'.
+  Hypothesis percentile_nonneg : forall l, (forall v, In v l -> 0 <= v) -> (0 <= percentile l)%Q.
+
+  Variables (d : list Z) (im1 im2 : image) (mg : list Z).
+  Hypothesis Hmoved : moved d im1 im2.
+  Hypothesis Hd : length d = length (shape im1).
+  Hypothesis Hin1 : content_inside mg im1.
+  Hypothesis Hin2 : content_inside mg im2.
+
+  Let n := length (shape im1).
+
+  Lemma pix2_vadd : forall p, length p = n -> pix im2 (vadd p d) = pix im1 p.
+  Proof. intros. apply Hmoved. exact H. Qed.
+
+  Lemma pix2_any : forall q, length q = n -> pix im2 q = pix im1 (vsub q d).
+  Proof.
+    intros q Hq. rewrite <- (vadd_vsub q d) at 1 by (unfold n in Hq; lia).
+    apply pix2_vadd. rewrite vsub_length; unfold n in *; lia.
+  Qed.
+
+  Lemma shape2_len : length (shape im2) = n.
+  Proof. apply Hmoved. Qed.
+
+  Lemma support_moved :
+    Permutation (filter (fun p => nzb (pix im2 p)) (coords (shape im2)))
+                (map (fun p => vadd p d) (filter (fun p => nzb (pix im1 p)) (coords (shape im1)))).
+  Proof.
+    apply NoDup_Permutation.
+    - apply NoDup_filter, nodup_coords.
+    - apply NoDup_map_inj_in; [|apply NoDup_filter, nodup_coords].
+      intros x y Hx Hy E. apply filter_In in Hx, Hy. destruct Hx as [Hx _], Hy as [Hy _].
+      apply in_coords, in_bounds_length in Hx. apply in_coords, in_bounds_length in Hy.
+      apply (vadd_inj x y d); [lia|lia|exact E].
+    - intros q. rewrite filter_In, in_map_iff. unfold nzb. split.
+      + intros [Hq Hnz]. apply in_coords in Hq. pose proof (in_bounds_length _ _ Hq) as HL.
+        rewrite shape2_len in HL.
+        exists (vsub q d). split; [apply vadd_vsub; unfold n in HL; lia|].
+        apply filter_In. rewrite <- pix2_any by exact HL. split; [|exact Hnz].
+        apply in_coords. apply Hin1. rewrite <- pix2_any by exact HL.
+        apply negb_true_iff, Z.eqb_neq in Hnz. exact Hnz.
+      + intros [p [<- Hp]]. apply filter_In in Hp. destruct Hp as [Hp Hnz].
+        apply in_coords in Hp. pose proof (in_bounds_length _ _ Hp) as HL.
+        rewrite pix2_vadd by exact HL. split; [|exact Hnz].
+        apply in_coords. apply Hin2. rewrite pix2_vadd by exact HL.
+        apply negb_true_iff, Z.eqb_neq in Hnz. exact Hnz.
+  Qed.
+
+  (* the non-zero pixels are the same multiset *)
+  Lemma not_black_moved : Permutation (not_black im2) (not_black im1).
+  Proof.
+    rewrite !not_black_as_map.
+    eapply Permutation_trans; [apply Permutation_map, support_moved|].
+    rewrite map_map. erewrite map_ext_in; [apply Permutation_refl|].
+    intros p Hp. apply filter_In in Hp. destruct Hp as [Hp _].
+    apply in_coords, in_bounds_length in Hp. apply pix2_vadd. exact Hp.
+  Qed.
+
+  Hypothesis Hpos : forall p, 0 <= pix im1 p.
+
+  Lemma threshold_moved : percentile (not_black im2) = percentile (not_black im1).
+  Proof. apply percentile_perm, not_black_moved. Qed.
+
+  Lemma threshold_nonneg : (0 <= percentile (not_black im1))%Q.
+  Proof.
+    apply percentile_nonneg. intros v Hv. unfold not_black in Hv. apply filter_In in Hv.
+    destruct Hv as [Hv _]. apply in_map_iff in Hv. destruct Hv as [p [<- _]]. apply Hpos.
+  Qed.
+
+  Lemma above_threshold_nonzero : forall v, (percentile (not_black im1) < inject_Z v)%Q -> v <> 0.
+  Proof.
+    intros v Hv E. subst v. pose proof threshold_nonneg as H0.
+    apply (Qlt_irrefl 0). eapply Qle_lt_trans; [exact H0|exact Hv].
+  Qed.
+
+  Variable sizes : list Z.
+  Hypothesis Hsizes : length sizes = n.
+  Hypothesis Hmg : length mg = n.
+
+  Lemma admissible_moved : forall p, length p = n ->
+    (admissible im2 sizes mg (percentile (not_black im2)) (vadd p d) <->
+     admissible im1 sizes mg (percentile (not_black im1)) p).
+  Proof.
+    intros p HL. unfold admissible. rewrite threshold_moved, pix2_vadd by exact HL. split.
+    - intros [Hb [Ht [Hm Ho]]].
+      pose proof (above_threshold_nonzero _ Ht) as Hnz. destruct (Hin1 p Hnz) as [Hb1 Ho1].
+      repeat split; try assumption.
+      intros q Hq. pose proof (Forall3_length _ _ _ _ _ _ _ Hq) as [L1 L2].
+      rewrite <- (pix2_vadd q) by lia. apply Hm.
+      apply in_box_vadd; unfold n in *; try lia. exact Hq.
+    - intros [Hb [Ht [Hm Ho]]].
+      pose proof (above_threshold_nonzero _ Ht) as Hnz.
+      assert (Hnz2 : pix im2 (vadd p d) <> 0) by (rewrite pix2_vadd by exact HL; exact Hnz).
+      destruct (Hin2 _ Hnz2) as [Hb2 Ho2].
+      repeat split; try assumption.
+      intros q Hq. pose proof (Forall3_length _ _ _ _ _ _ _ Hq) as [L1 L2].
+      rewrite vadd_length in L2 by (unfold n in *; lia).
+      rewrite pix2_any by (unfold n in *; lia). apply Hm.
+      apply (in_box_vadd sizes p (vsub q d) d); unfold n in *; try lia.
+      + rewrite vsub_length; lia.
+      + rewrite vadd_vsub by lia. exact Hq.
+  Qed.
+End MovedMaxima.
+
+Section MovedLocate.
+  Variable percentile : list Z -> Q.
+  Hypothesis percentile_perm : forall l l', Permutation l l' -> percentile l = percentile l'.
+  Hypothesis percentile_nonneg : forall l, (forall v, In v l -> 0 <= v) -> (0 <= percentile l)%Q.
+
+  Variables (d : list Z) (im1 im2 : image) (P : lparams).
+  Hypothesis Hmoved : moved d im1 im2.
+  Hypothesis Hd : length d = length (shape im1).
+  Hypothesis Hsep : length (lp_sep P) = length (shape im1).
+  Hypothesis Hmg : length (lp_margin P) = length (shape im1).
+  Hypothesis Hsz : Forall (fun s => 1 <= s) (sizes_of im1 (lp_sep P)).
+  Hypothesis Hin1 : content_inside (lp_margin P) im1.
+  Hypothesis Hin2 : content_inside (lp_margin P) im2.
+  Hypothesis Hpos : forall p, 0 <= pix im1 p.
+
+  Lemma sizes_of_moved : sizes_of im2 (lp_sep P) = sizes_of im1 (lp_sep P).
+  Proof. unfold sizes_of. destruct Hmoved as [E _]. rewrite E. reflexivity. Qed.
+
+  Lemma maxima_spec1 : forall p,
+    In p (find_maxima percentile P im1) <->
+    not_black im1 <> [] /\ admissible im1 (sizes_of im1 (lp_sep P)) (lp_margin P) (percentile (not_black im1)) p.
+  Proof.
+    intros p. unfold find_maxima.
+    pose proof (maxima_exact percentile false im1 (lp_sep P) (Some (lp_margin P)) p) as H.
+    cbv zeta in H. rewrite convert_to_int_integer in H. cbn [eff_margin] in H. apply H; assumption.
+  Qed.
+
+  Lemma maxima_spec2 : forall p,
+    In p (find_maxima percentile P im2) <->
+    not_black im2 <> [] /\ admissible im2 (sizes_of im1 (lp_sep P)) (lp_margin P) (percentile (not_black im2)) p.
+  Proof.
+    intros p. unfold find_maxima.
+    pose proof (maxima_exact percentile false im2 (lp_sep P) (Some (lp_margin P)) p) as H.
+    cbv zeta in H. rewrite convert_to_int_integer in H. cbn [eff_margin] in H.
+    rewrite sizes_of_moved in H. destruct Hmoved as [E _]. apply H; try rewrite E; assumption.
+  Qed.
+
+  Lemma not_black_nil_iff : not_black im2 <> [] <-> not_black im1 <> [].
+  Proof.
+    pose proof (not_black_moved d im1 im2 (lp_margin P) Hmoved Hd Hin1 Hin2) as Hp.
+    split; intros H E; apply H; rewrite E in Hp.
+    - apply Permutation_nil, Permutation_sym. exact Hp.
+    - apply Permutation_nil. exact Hp.
+  Qed.
+
+  (* (1) the maxima found on the moved image are exactly the moved maxima *)
+  Theorem maxima_moved : forall q,
+    In q (find_maxima percentile P im2) <-> exists p, q = vadd p d /\ In p (find_maxima percentile P im1).
+  Proof.
+    intros q.
+    assert (Hs : length (sizes_of im1 (lp_sep P)) = length (shape im1)).
+    { unfold sizes_of. rewrite map_length. exact Hsep. }
+    pose proof (admissible_moved percentile percentile_perm percentile_nonneg d im1 im2 (lp_margin P)
+                  Hmoved Hd Hin1 Hin2 Hpos (sizes_of im1 (lp_sep P)) Hs Hmg) as HA.
+    rewrite maxima_spec2. split.
+    - intros [Hnb Had].
+      assert (HL : length q = length (shape im1)).
+      { destruct Had as [Hb _]. apply in_bounds_length in Hb. destruct Hmoved as [E _]. lia. }
+      exists (vsub q d). split; [symmetry; apply vadd_vsub; lia|].
+      apply maxima_spec1. split; [apply not_black_nil_iff, Hnb|].
+      apply HA; [rewrite vsub_length; lia|]. rewrite vadd_vsub by lia. exact Had.
+    - intros [p [-> Hp]]. apply maxima_spec1 in Hp. destruct Hp as [Hnb Had].
+      split; [apply not_black_nil_iff, Hnb|].
+      apply HA; [|exact Had]. destruct Had as [Hb _]. apply in_bounds_length in Hb. exact Hb.
+  Qed.
+
+  Lemma maxima_length : forall p, In p (find_maxima percentile P im1) -> length p = length (shape im1).
+  Proof. intros p Hp. apply maxima_spec1 in Hp. destruct Hp as [_ [Hb _]]. apply in_bounds_length, Hb. Qed.
+
+  Corollary maxima_moved_perm :
+    Permutation (find_maxima percentile P im2) (map (fun p => vadd p d) (find_maxima percentile P im1)).
+  Proof.
+    apply NoDup_Permutation.
+    - apply maxima_nodup.
+    - apply NoDup_map_inj_in; [|apply maxima_nodup].
+      intros x y Hx Hy E. apply maxima_length in Hx, Hy. apply (vadd_inj x y d); [lia|lia|exact E].
+    - intros q. rewrite maxima_moved, in_map_iff. split; intros [p [E Hp]]; exists p; split; auto.
+  Qed.
+End MovedLocate.
+
+(* ==================================== refinement (Model/COM) under translation *)
+(* the window may move k more steps in any direction without touching the clip bounds *)
+Definition room (radius sh : list Z) (k : nat) (c : list Z) : Prop :=
+  forall j, (j < length radius)%nat ->
+    ix radius j + Z.of_nat k <= ix c j <= ix sh j - 1 - ix radius j - Z.of_nat k.
+
+Lemma r_shift1_add : forall t c e o, r_shift1 t (c + e) o = r_shift1 t c o + e.
+Proof. intros. unfold r_shift1. destruct (Qltb t o), (Qltb o (- t)); lia. Qed.
+
+Lemma r_shift1_near : forall t c o, c - 1 <= r_shift1 t c o <= c + 1.
+Proof. intros. unfold r_shift1. destruct (Qltb t o), (Qltb o (- t)); lia. Qed.
+
+Lemma r_clip1_id : forall c lo hi, lo <= c <= hi -> r_clip1 c lo hi = c.
+Proof. intros. unfold r_clip1. lia. Qed.
+
+Lemma ix_map_seq_out : forall (f : nat -> Z) n k, (n <= k)%nat -> ix (map f (seq 0 n)) k = 0.
+Proof. intros. unfold ix. apply nth_overflow. rewrite map_length, seq_length. exact H. Qed.
+
+Section MovedRefine.
+  Variables pix1 pix2 raw1 raw2 : list Z -> Z.
+  Variables (radius sh1 sh2 d : list Z) (thresh : Q) (mask : list Z -> bool).
+  Let n := length radius.
+  Hypothesis Hd : length d = n.
+  Hypothesis Hpix : forall p, length p = n -> pix2 (vadd p d) = pix1 p.
+  Hypothesis Hraw : forall p, length p = n -> raw2 (vadd p d) = raw1 p.
+
+  Lemma at_win_vadd : forall c p, length c = n -> at_win radius (vadd c d) p = vadd (at_win radius c p) d.
+  Proof.
+    intros c p Hc. unfold at_win, dims, ndim. fold n.
+    apply list_eq_ix.
+    - rewrite vadd_length; rewrite map_length, seq_length; lia.
+    - intros k Hk. rewrite map_length, seq_length in Hk.
+      rewrite ix_vadd by (rewrite map_length, seq_length; lia).
+      rewrite !ix_map_seq by exact Hk. rewrite ix_vadd by lia. lia.
+  Qed.
+
+  Lemma at_win_length : forall c p, length (at_win radius c p) = n.
+  Proof. intros. unfold at_win, dims, ndim. rewrite map_length, seq_length. reflexivity. Qed.
+
+  Lemma nbh_moved : forall c p, length c = n -> nbh pix2 radius mask (vadd c d) p = nbh pix1 radius mask c p.
+  Proof.
+    intros c p Hc. unfold nbh. destruct (mask p); [|reflexivity].
+    rewrite at_win_vadd by exact Hc. apply Hpix, at_win_length.
+  Qed.
+
+  Lemma nb_sum_moved : forall c, length c = n -> nb_sum pix2 radius mask (vadd c d) = nb_sum pix1 radius mask c.
+  Proof. intros c Hc. unfold nb_sum. f_equal. apply map_ext. intros p. apply nbh_moved, Hc. Qed.
+
+  Lemma nb_moment_moved : forall c k, length c = n ->
+    nb_moment pix2 radius mask (vadd c d) k = nb_moment pix1 radius mask c k.
+  Proof. intros c k Hc. unfold nb_moment. f_equal. apply map_ext. intros p. rewrite nbh_moved by exact Hc. reflexivity. Qed.
+
+  Lemma safe_com_moved : forall c, length c = n -> safe_com pix2 radius mask (vadd c d) = safe_com pix1 radius mask c.
+  Proof.
+    intros c Hc. unfold safe_com. rewrite nb_sum_moved by exact Hc.
+    destruct (nb_sum pix1 radius mask c =? 0); [reflexivity|].
+    apply map_ext. intros k. rewrite nb_moment_moved by exact Hc. reflexivity.
+  Qed.
+
+  (* positions: every component moved by d, as rationals *)
+  Lemma cmi_moved : forall (off : nat -> Q) c, length c = n ->
+    pos_moved d (map (fun k => (off k + inject_Z (ix c k))%Q) (seq 0 n))
+                (map (fun k => (off k + inject_Z (ix (vadd c d) k))%Q) (seq 0 n)).
+  Proof.
+    intros off c Hc. split; [rewrite !map_length; reflexivity|].
+    intros k Hk. rewrite map_length, seq_length in Hk.
+    rewrite !qx_map_seq by exact Hk. rewrite ix_vadd by lia. rewrite inject_Z_plus. ring.
+  Qed.
+
+  Lemma ref_loop_moved : forall k c, length c = n -> room radius sh1 k c -> room radius sh2 k (vadd c d) ->
+    let s1 := ref_loop pix1 radius sh1 thresh mask k c in
+    let s2 := ref_loop pix2 radius sh2 thresh mask k (vadd c d) in
+    r_rect s2 = vadd (r_rect s1) d /\ length (r_rect s1) = n /\ pos_moved d (r_cmi s1) (r_cmi s2).
+  Proof.
+    induction k as [|k IH]; intros c Hc R1 R2; cbn zeta; cbn [ref_loop];
+      rewrite safe_com_moved by exact Hc; unfold dims, ndim; fold n;
+      set (off := map (fun j => (qx (safe_com pix1 radius mask c) j - inject_Z (ix radius j))%Q) (seq 0 n));
+      destruct (all_lt thresh off).
+    - cbn. split; [reflexivity|]. split; [exact Hc|]. apply (cmi_moved (fun j => qx off j) c Hc).
+    - cbn. split; [reflexivity|]. split; [exact Hc|]. apply (cmi_moved (fun j => qx off j) c Hc).
+    - cbn. split; [reflexivity|]. split; [exact Hc|]. apply (cmi_moved (fun j => qx off j) c Hc).
+    - set (c1 := map (fun j => r_clip1 (r_shift1 thresh (ix c j) (qx off j)) (ix radius j) (upper radius sh1 j)) (seq 0 n)).
+      set (c2 := map (fun j => r_clip1 (r_shift1 thresh (ix (vadd c d) j) (qx off j)) (ix radius j) (upper radius sh2 j)) (seq 0 n)).
+      assert (E1 : forall j, (j < n)%nat -> ix c1 j = r_shift1 thresh (ix c j) (qx off j)).
+      { intros j Hj. unfold c1. rewrite ix_map_seq by exact Hj. apply r_clip1_id.
+        pose proof (R1 j Hj). pose proof (r_shift1_near thresh (ix c j) (qx off j)). unfold upper. lia. }
+      assert (E2 : forall j, (j < n)%nat -> ix c2 j = r_shift1 thresh (ix c j) (qx off j) + ix d j).
+      { intros j Hj. unfold c2. rewrite ix_map_seq by exact Hj. rewrite <- r_shift1_add, <- ix_vadd by lia.
+        apply r_clip1_id.
+        pose proof (R2 j Hj). pose proof (r_shift1_near thresh (ix (vadd c d) j) (qx off j)). unfold upper. lia. }
+      assert (L1 : length c1 = n) by (unfold c1; rewrite map_length, seq_length; reflexivity).
+      assert (Ec : c2 = vadd c1 d).
+      { apply list_eq_ix.
+        - unfold c2. rewrite map_length, seq_length, vadd_length; lia.
+        - intros j Hj. unfold c2 in Hj. rewrite map_length, seq_length in Hj.
+          rewrite ix_vadd by lia. rewrite E1, E2 by exact Hj. reflexivity. }
+      rewrite Ec. apply IH.
+      + exact L1.
+      + intros j Hj. rewrite E1 by exact Hj.
+        pose proof (R1 j Hj). pose proof (r_shift1_near thresh (ix c j) (qx off j)). lia.
+      + intros j Hj. rewrite <- Ec, E2 by exact Hj. pose proof (R2 j Hj).
+        rewrite ix_vadd in H by lia.
+        pose proof (r_shift1_near thresh (ix c j) (qx off j)). lia.
+  Qed.
+
+  Lemma ref_output_moved : forall charz s1 s2,
+    r_rect s2 = vadd (r_rect s1) d -> length (r_rect s1) = n -> pos_moved d (r_cmi s1) (r_cmi s2) ->
+    row_moved d (ref_output pix1 raw1 radius mask charz s1) (ref_output pix2 raw2 radius mask charz s2).
+  Proof.
+    intros charz s1 s2 Er Hl Hp. unfold ref_output, row_moved. rewrite Er.
+    rewrite nb_sum_moved by exact Hl.
+    assert (Hn : forall p, nbh pix2 radius mask (vadd (r_rect s1) d) p = nbh pix1 radius mask (r_rect s1) p)
+      by (intros; apply nbh_moved, Hl).
+    destruct charz; cbn [negb o_pos o_mass o_char]; [|repeat split; [apply Hp|apply Hp]].
+    split; [exact Hp|]. split; [reflexivity|]. f_equal. f_equal; [f_equal|].
+    - destruct (isotropic radius).
+      + f_equal. f_equal. f_equal. apply map_ext. intros p. rewrite Hn. reflexivity.
+      + unfold dims, ndim. apply map_ext. intros k. f_equal. f_equal. f_equal. apply map_ext. intros p. rewrite Hn. reflexivity.
+    - f_equal. apply map_ext. exact Hn.
+    - f_equal. apply map_ext. intros p. destruct (mask p); [|reflexivity].
+      rewrite at_win_vadd by exact Hl. apply Hraw, at_win_length.
+  Qed.
+End MovedRefine.
+
+(* =========================== the discrete pipeline under translation, composed *)
+Lemma Forall2_map_in : forall (A B C : Type) (R : B -> C -> Prop) (f : A -> B) (g : A -> C) (l : list A),
+  (forall x, In x l -> R (f x) (g x)) -> Forall2 R (map f l) (map g l).
+Proof.
+  induction l as [|a l IH]; intros H; cbn; constructor.
+  - apply H. left; reflexivity.
+  - apply IH. intros x Hx. apply H. right; exact Hx.
+Qed.
+
+(* every bright pixel can serve as the start of a refinement that never reaches the
+   clip bounds, in either placement: it keeps radius + (iterations - 1) from the edges *)
+Definition content_has_room (P : lparams) (d : list Z) (im1 im2 : image) : Prop :=
+  forall p, pix im1 p <> 0 ->
+    room (lp_radius P) (shape im1) (pred (iters_of (lp_maxit P))) p /\
+    room (lp_radius P) (shape im2) (pred (iters_of (lp_maxit P))) (vadd p d).
+
+Theorem refine_at_moved : forall P d im1 im2 start,
+  moved d im1 im2 -> length d = length (shape im1) -> length (lp_radius P) = length (shape im1) ->
+  length start = length (shape im1) ->
+  room (lp_radius P) (shape im1) (pred (iters_of (lp_maxit P))) start ->
+  room (lp_radius P) (shape im2) (pred (iters_of (lp_maxit P))) (vadd start d) ->
+  row_moved d (refine_at P im1 start) (refine_at P im2 (vadd start d)).
+Proof.
+  intros P d im1 im2 start [_ Hm] Hd Hr Hs R1 R2.
+  unfold refine_at, refine_python, ref_run.
+  assert (Hpix : forall p, length p = length (lp_radius P) -> pix im2 (vadd p d) = pix im1 p)
+    by (intros p Hp; apply Hm; lia).
+  destruct (ref_loop_moved (pix im1) (pix im2) (lp_radius P) (shape im1) (shape im2) d (lp_thresh P)
+              (binary_mask (lp_radius P)) ltac:(lia) Hpix (pred (iters_of (lp_maxit P))) start ltac:(lia) R1 R2)
+    as [E1 [E2 E3]].
+  apply ref_output_moved; try assumption. lia.
+Qed.
+
+Section MovedPipeline.
+  Variable percentile : list Z -> Q.
+  Hypothesis percentile_perm : forall l l', Permutation l l' -> percentile l = percentile l'.
+  Hypothesis percentile_nonneg : forall l, (forall v, In v l -> 0 <= v) -> (0 <= percentile l)%Q.
+
+  (* (2) locate's table before the tail, on the moved image: the same rows, each
+     position moved by d, every other column identical (as a multiset of rows) *)
+  Theorem locate_discrete_moved : forall d im1 im2 P,
+    moved d im1 im2 ->
+    length d = length (shape im1) ->
+    length (lp_sep P) = length (shape im1) -> length (lp_margin P) = length (shape im1) ->
+    length (lp_radius P) = length (shape im1) ->
+    Forall (fun s => 1 <= s) (sizes_of im1 (lp_sep P)) ->
+    (forall p, 0 <= pix im1 p) ->
+    content_inside (lp_margin P) im1 -> content_inside (lp_margin P) im2 ->
+    content_has_room P d im1 im2 ->
+    exists rows, Permutation (locate_discrete percentile P im2) rows /\
+                 Forall2 (row_moved d) (locate_discrete percentile P im1) rows.
+  Proof.
+    intros d im1 im2 P Hm Hd Hsep Hmg Hrad Hsz Hpos Hin1 Hin2 Hroom.
+    exists (map (refine_at P im2) (map (fun p => vadd p d) (find_maxima percentile P im1))). split.
+    - unfold locate_discrete. apply Permutation_map.
+      apply (maxima_moved_perm percentile percentile_perm percentile_nonneg d im1 im2 P); assumption.
+    - unfold locate_discrete. rewrite map_map. apply Forall2_map_in. intros p Hp.
+      pose proof (maxima_length percentile im1 P Hsep Hmg Hsz p Hp) as HL.
+      apply (maxima_spec1 percentile im1 P Hsep Hmg Hsz) in Hp. destruct Hp as [_ [_ [Ht _]]].
+      pose proof (above_threshold_nonzero percentile percentile_nonneg im1 Hpos _ Ht) as Hnz.
+      destruct (Hroom p Hnz) as [R1 R2].
+      apply refine_at_moved; assumption.
+  Qed.
+End MovedPipeline.
